@@ -107,7 +107,10 @@ pub fn feature_names(bits: u32) -> Vec<&'static str> {
 pub fn base_yaml(bits: u32, servers: u8) -> String {
     let on = |f: usize| bits >> f & 1 == 1;
     let mut s = String::with_capacity(4096);
-    s.push_str("openapi: 3.0.3\ninfo:\n  title: Base API\n");
+    // The version string is the base's own too: 3.1.0 with a description, 3.0.1 with a license
+    // and no description, else 3.0.3.
+    s.push_str(if on(F_DESC) { "openapi: 3.1.0\n" } else if on(F_LICENSE) { "openapi: 3.0.1\n" } else { "openapi: 3.0.3\n" });
+    s.push_str("info:\n  title: Base API\n");
     if on(F_DESC) {
         s.push_str("  description: 'A base description: with a colon'\n");
     }
@@ -190,7 +193,7 @@ pub struct Prog {
 pub const PROGRAMS: [Prog; 6] = [
     Prog {
         name: "refs",
-        text: "let @obj = { 'id! int, 'name str };\nlet @list = [@obj];\nlet tree = rec x { 'value @obj, 'children [x] };\nres /objs on get -> <@list>;\nres /objs/{ 'id int } on get -> <@obj>, put : <@obj> -> <@obj>;\nres /tree on (get -> <tree>) `tags: [from-the-program, another]`;\n",
+        text: "let @obj = { 'id! int, 'name str, 'self /objs/{ 'id int } };\nlet @list = [@obj];\nlet tree = rec x { 'value @obj, 'children [x] };\nres /objs on get -> <@list>;\nres /objs/{ 'id int } on get -> <@obj>, put : <@obj> -> <@obj>;\nres /tree on (get -> <tree>) `tags: [from-the-program, another]`;\n",
     },
     Prog {
         name: "empty",
